@@ -4,7 +4,7 @@ import ast
 from ..core.model import AnchorError, FuncInfo, ClassInfo
 from ..core.cfg import walk_shallow, cfg_of
 from ..core.facts import U
-from ..engine import fn_name, kwarg
+from ..engine import argn, fn_name, kwarg
 
 T, F, UNK = True, False, None
 
@@ -76,10 +76,10 @@ def filter_semantics(ctx, g: FuncInfo, pname: str):
     sem = set()
     for n in walk_shallow(g.node):
         if isinstance(n, ast.Call) and isinstance(n.func, ast.Name) and n.func.id == "filter" and n.args:
-            if isinstance(n.args[0], ast.Name) and n.args[0].id == pname:
+            if isinstance(argn(n, 0), ast.Name) and argn(n, 0).id == pname:
                 sem.add("keep")
         if isinstance(n, ast.Call) and fn_name(n) == "filterfalse" and n.args:
-            if isinstance(n.args[0], ast.Name) and n.args[0].id == pname:
+            if isinstance(argn(n, 0), ast.Name) and argn(n, 0).id == pname:
                 sem.add("drop")
         if isinstance(n, ast.comprehension):
             for cond in n.ifs:
@@ -230,7 +230,7 @@ def mutation_during_iteration(ctx, f):
             if n in COPY_WRAPPERS:
                 continue
             if n in ("enumerate", "reversed", "zip") and it.args:
-                it = it.args[0]
+                it = argn(it, 0)
                 if isinstance(it, ast.Call) and fn_name(it) in COPY_WRAPPERS:
                     continue
             elif n in ("items", "keys", "values") and isinstance(it.func, ast.Attribute):
@@ -303,6 +303,39 @@ def truthiness_uses(f, name):
     return out
 
 
+
+# ------------------------------------------------------------------ a looked-up number defaulted by `or`
+_NUMF = {"min", "max", "abs", "float", "int", "round", "sum", "maximum", "minimum", "sqrt", "log", "exp"}
+
+
+def numeric_lookup_or_default(f):
+    """[BoolOp] `d.get(k) or default` / `getattr(o, n, None) or default` used as a number (argument of min / max / ..., operand
+    of arithmetic or of an order comparison, or with a numeric default): a stored 0 / 0.0 is replaced by the default"""
+    def lookup(e):
+        if isinstance(e, ast.Call) and isinstance(e.func, ast.Attribute) and e.func.attr in ("get", "pop"):
+            return len(e.args) == 1 or (len(e.args) == 2 and isinstance(argn(e, 1), ast.Constant) and argn(e, 1).value is None)
+        if isinstance(e, ast.Call) and isinstance(e.func, ast.Name) and e.func.id == "getattr":
+            return len(e.args) == 3 and isinstance(argn(e, 2), ast.Constant) and argn(e, 2).value is None
+        return False
+
+    def numeric_ctx(x):
+        p = getattr(x, "_parent", None)
+        if isinstance(p, ast.Call) and fn_name(p) in _NUMF and x in p.args:
+            return True
+        if isinstance(p, ast.BinOp) and isinstance(p.op, (ast.Add, ast.Sub, ast.Mult, ast.Div, ast.FloorDiv, ast.Pow, ast.Mod)):
+            return True
+        if isinstance(p, ast.Compare) and any(isinstance(o, (ast.Lt, ast.LtE, ast.Gt, ast.GtE)) for o in p.ops):
+            return True
+        if isinstance(p, ast.UnaryOp) and isinstance(p.op, ast.USub):
+            return True
+        d = x.values[-1]
+        if isinstance(d, ast.UnaryOp):
+            d = d.operand
+        return (isinstance(d, ast.Constant) and isinstance(d.value, (int, float)) and not isinstance(d.value, bool)) or \
+            U(d).split(".")[-1] in ("inf", "np_inf", "nan")
+    return [x for x in walk_shallow(f.node, include_lambda=True)
+            if isinstance(x, ast.BoolOp) and isinstance(x.op, ast.Or) and any(lookup(v) for v in x.values[:-1]) and numeric_ctx(x)]
+
 # ------------------------------------------------------------------ deleting list positions in ascending order
 def ascending_index_deletion(ctx, f):
     """[(for node, text)] loops `for i in <ascending positions of L>: del L[i]` (or L.pop(i)): every deletion shifts the
@@ -326,10 +359,10 @@ def ascending_index_deletion(ctx, f):
         # positions taken from enumerate(L) / range(len(L)) in their natural (ascending) order
         for y in ast.walk(src):
             if isinstance(y, ast.Call) and fn_name(y) == "enumerate" and y.args:
-                seqs.add(base(y.args[0]))
+                seqs.add(base(argn(y, 0)))
             if isinstance(y, ast.Call) and fn_name(y) == "range" and y.args and isinstance(y.args[-1 if len(y.args) < 3 else 1], ast.Call) \
                     and fn_name(y.args[-1 if len(y.args) < 3 else 1]) == "len" and len(y.args) < 3:
-                seqs.add(base(y.args[-1].args[0]))
+                seqs.add(base(argn(y.args[-1], 0)))
         if isinstance(src, ast.Call) and fn_name(src) in ("reversed",):
             continue
         if isinstance(src, ast.Call) and fn_name(src) == "sorted" and kwarg(src, "reverse") is not None and U(kwarg(src, "reverse")) == "True":
@@ -345,7 +378,7 @@ def ascending_index_deletion(ctx, f):
                 for t in x.targets:
                     if isinstance(t, ast.Subscript) and U(t.slice) == st.target.id:
                         tgt = t.value
-            if isinstance(x, ast.Call) and isinstance(x.func, ast.Attribute) and x.func.attr == "pop" and x.args and U(x.args[0]) == st.target.id:
+            if isinstance(x, ast.Call) and isinstance(x.func, ast.Attribute) and x.func.attr == "pop" and x.args and U(argn(x, 0)) == st.target.id:
                 tgt = x.func.value
             if tgt is not None and base(tgt) in seqs:
                 out.append((st, U(x)[:60]))
@@ -467,7 +500,8 @@ def eq_atom(x, y, truth=True):
 # ------------------------------------------------------------------ a computed value that is bound to a local and never used
 def dead_local_stores(ctx, f):
     """[(assign node, name)] `name = <call>` where no path from the assignment reads `name` before the function ends or the
-    name is rebound: the update was applied to a local instead of the object it was meant for"""
+    name is rebound: the update was applied to a local instead of the object it was meant for.  Setting attributes of the
+    object (`name.attr = ...`) is not a read: an object that is built, modified and handed to nobody is dropped all the same."""
     cfg = cfg_of(f)
     out = []
     nested_reads = set()
@@ -489,6 +523,7 @@ def dead_local_stores(ctx, f):
             continue
         # forward search: a read of v before any rebinding
         seen, todo, used = set(), [s_ for s_, l in cfg.succ[n.id]], False
+        only_written = None
         while todo and not used:
             m = todo.pop()
             if m in seen:
@@ -497,6 +532,16 @@ def dead_local_stores(ctx, f):
             nd = cfg.nodes[m]
             reads = [y for y in cfg.node_walk(m) if isinstance(y, ast.Name) and y.id == v and isinstance(y.ctx, ast.Load)]
             if reads:
+                # `v.attr = ...` modifies the object bound to v but hands it to nobody: not a use of the value
+                bases = set()
+                if nd.kind == "stmt" and isinstance(nd.ast, (ast.Assign, ast.AugAssign)):
+                    for t in (nd.ast.targets if isinstance(nd.ast, ast.Assign) else [nd.ast.target]):
+                        if isinstance(t, ast.Attribute) and isinstance(t.value, ast.Name) and t.value.id == v:
+                            bases.add(id(t.value))
+                if bases and all(id(y) in bases for y in reads):
+                    only_written = only_written or nd.ast
+                    todo += [s_ for s_, l in cfg.succ[m]]
+                    continue
                 used = True
                 break
             rebinds = nd.kind == "stmt" and isinstance(nd.ast, ast.Assign) and any(isinstance(t, ast.Name) and t.id == v for t in nd.ast.targets)
@@ -625,6 +670,10 @@ def cross_cutting(ctx, rep, prop):
                 bad += 1
                 rep.bad("X", "guarded_by", f"{f.short}: optional number `{p_}` is tested with `is None`, not for truth", f, u,
                         f"`{U(u)[:70]}` treats `{p_} = 0` as 'not given'")
+        for u in numeric_lookup_or_default(f):
+            bad += 1
+            rep.bad("X", "guarded_by", f"{f.short}: a looked-up number is defaulted on absence, not on falsity", f, u,
+                    f"`{U(u)[:70]}` replaces a stored 0 by the default: the lookup needs `.get(key, default)` / an `is None` test")
     rep.put(bad == 0, "X", "cross_cutting", f"cross-cutting lints over the {len(files)} anchored file(s)", None, None,
             f"{len(funcs)} functions: no dropped value, shared fresh container, ascending index deletion, mutation while iterating, "
             "forgetful accumulator or truthiness test on an optional number")
